@@ -235,7 +235,7 @@ def prec_consistent(it, tree):
     def right_assoc(recs, i):
         if recs[i][0] != 'leftright':
             return False
-        op = textbook.operator_of(recs[i][1])
+        op = textbook.assoc_operator_of(recs[i][1])
         ft = g.first[('n', op['id'])]
         return bool(ft) and all(t in right for t in ft)
 
